@@ -245,3 +245,46 @@ package ast
 //@   pure
 //@   ensures result != nil
 //@   invariant 1: result != nil && fresh(result) && forall(i, 0 <= i && i < len(result.values) ==> result.values[i] != nil)
+
+// ---------------------------------------------------------------------------
+// Operator/type dispatch (C10, C01): the typed comparison node is chosen from the operand types.
+// Set-function wrappers have been replaced by their symbol (or by count/isEmpty nodes) before.
+// ---------------------------------------------------------------------------
+
+//@ func (*BinaryExprNode).getTypedExpr
+//@   props C10
+//@   requires !istype(node.left, *SetFunctionNode) && !istype(node.right, *SetFunctionNode)
+//@   pure
+//@   ensures[typed-or-error] result1 == nil ==> result0 != nil
+//@ func (*BinaryExprNode).handleIsNullOps
+//@   props C10
+//@   pure
+//@   ensures[typed-or-error] result1 == nil ==> result0 != nil
+//@ func (*BinaryExprNode).handleStringOps
+//@   props C10
+//@   pure
+//@   ensures[typed-or-error] result1 == nil ==> result0 != nil
+//@ func (*BinaryExprNode).handleBoolOps
+//@   props C10
+//@   requires !istype(node.left, *SetFunctionNode) && !istype(node.right, *SetFunctionNode)
+//@   requires constmethod(node.left, GetType) == NodeTypeBool || (constmethod(node.left, GetType) == NodeTypeAnyType && constmethod(node.right, GetType) == NodeTypeBool)
+//@   pure
+//@   ensures[typed-or-error] result1 == nil ==> result0 != nil
+//@ func (*BinaryExprNode).handleDatetimeOps
+//@   props C10
+//@   requires !istype(node.left, *SetFunctionNode) && !istype(node.right, *SetFunctionNode)
+//@   requires constmethod(node.left, GetType) == NodeTypeDatetime || (constmethod(node.left, GetType) == NodeTypeAnyType && constmethod(node.right, GetType) == NodeTypeDatetime)
+//@   pure
+//@   ensures[typed-or-error] result1 == nil ==> result0 != nil
+//@ func (*BinaryExprNode).handleFloat64Ops
+//@   props C10
+//@   requires !istype(node.left, *SetFunctionNode) && !istype(node.right, *SetFunctionNode)
+//@   requires constmethod(node.left, GetType) == NodeTypeFloat64 || (constmethod(node.left, GetType) == NodeTypeAnyType && constmethod(node.right, GetType) == NodeTypeFloat64)
+//@   pure
+//@   ensures[typed-or-error] result1 == nil ==> result0 != nil
+//@ func (*BinaryExprNode).handleInt64Ops
+//@   props C10
+//@   requires !istype(node.left, *SetFunctionNode) && !istype(node.right, *SetFunctionNode)
+//@   requires constmethod(node.left, GetType) == NodeTypeInt64 || (constmethod(node.left, GetType) == NodeTypeAnyType && constmethod(node.right, GetType) == NodeTypeInt64)
+//@   pure
+//@   ensures[typed-or-error] result1 == nil ==> result0 != nil
